@@ -290,7 +290,7 @@ def run(ctx):
             continue
         import time as _t
         _t0 = _t.time()
-        with ctx.guard(1200):
+        with ctx.guard(1200 if not thorough else 3600):
             if item[0] == "g":
                 _, fn, n, edges, prim = item
                 e2 = [(v, u) if rng.random() < 0.5 else (u, v) for u, v in edges]
